@@ -629,6 +629,8 @@ def _run(report):
     c04_probe.run(report)
     report.extra["callee_contracts_used"] = sorted(set().union(*[x.used_contracts for x in execs]))
     report.extra["library_models_used"] = sorted(set().union(*[x.used_models for x in execs]))
+    from ..contracts import audit
+    audit.run(report)
     report.trust("CPython 3.12 (subset of DESIGN 3.A)", "z3 5.1 / cvc5 1.4", "inspect.signature/bind, functools.wraps (assumed)",
                  "contract of collect_quantity_factor_and_dimension (proved in C05)", "sympy.physics.units dimension system")
     report.assume(*[f"{k}: {v}" for k, v in FE.ASSUMED.items()])
